@@ -30,6 +30,8 @@ def run(ctx):
     ctx.guard(ref_rule, ctx, am)
     from . import linkedset
     ctx.guard(linkedset.check, ctx, 'C02-PARTNERS')
+    from . import c10 as _c10
+    ctx.shared(_c10.access, ctx)            # referential attributes are read through Class.__getattr__ / the declared cell
     ctx.assume('induction hypothesis for C02-ATOMIC/unrelate: the two directed links mirror each other '
                'before the call (established by C02-PAIR + C02-ATOMIC for every mutator)')
     ctx.assume('no code outside xtuml/ and bridgepoint/ mutates Link dictionaries directly')
